@@ -28,6 +28,7 @@ def registry : List Obj := [
   sporkObj,
   pureObj purePool,
   pureObj pureRewards,
+  pureObj purePoints,
   mkObj (⟨[], none⟩ : ZV.Pool.PState) poolStep,
   pureObj pureElection,
   pureObj pureTicker,
